@@ -120,9 +120,9 @@ def family_of(name):
     return "codon" if name in CODON else "protein" if name in PROTEIN else "nucleotide"
 
 
-def built_case(rng, style="plain", which=None, mpm=None):
+def built_case(rng, style="plain", which=None, mpm=None, bins=None):
     """user-built predicate models"""
-    which = which or rng.choice(["rev_nuc", "nonrev_nuc", "rev_dinuc", "nonrev_dinuc", "rev_codon"])
+    which = which or rng.choice(["rev_nuc", "nonrev_nuc", "rev_dinuc", "nonrev_dinuc", "rev_codon", "subset_dinuc"])
     pairs = [("A", "C"), ("A", "G"), ("A", "T"), ("C", "G"), ("C", "T"), ("G", "T")]
     if which == "rev_nuc":
         k = rng.randint(1, 4)
@@ -139,25 +139,51 @@ def built_case(rng, style="plain", which=None, mpm=None):
         names = [f"{a}>{b}" for a, b, _ in preds]
         nmp, fam = 4, "nucleotide"
     elif which == "rev_dinuc":
-        mpm = mpm or rng.choice(["tuple", "monomer", "conditional"])
+        mpm = mpm or rng.choice(["tuple", "monomer", "monomers", "conditional"])
         spec = dict(cls="TimeReversibleDinucleotide", preds=["kappa"], mprob_model=mpm)
         names = ["kappa"]
-        nmp, fam = (4 if mpm == "monomer" else 16), "dinucleotide"
+        nmp, fam = (4 if mpm in ("monomer", "monomers") else 16), "dinucleotide"
+    elif which == "subset_nuc":
+        keep = sorted(rng.sample(list(NUC), 3))
+        spec = dict(cls=rng.choice(["TimeReversibleNucleotide", "NonReversibleNucleotide"]), preds=[[keep[0], keep[1], False]],
+                    mprob_model=None, motifs=keep)
+        names = [f"{keep[0]}/{keep[1]}"]
+        nmp, fam = 3, "nucleotide"
+    elif which == "subset_dinuc":
+        mpm = mpm or rng.choice(["tuple", "monomer", "monomers", "conditional"])
+        allw = [a + b for a in NUC for b in NUC]
+        keep = sorted(rng.sample(allw, rng.randint(9, 13)))
+        spec = dict(cls="TimeReversibleDinucleotide", preds=["kappa"], mprob_model=mpm, motifs=keep)
+        names = ["kappa"]
+        nmp, fam = (4 if mpm in ("monomer", "monomers") else len(keep)), "dinucleotide"
+    elif which == "general_stationary":
+        spec = dict(cls="GeneralStationary", preds=[], mprob_model=None)
+        names = ["T>C", "T>A", "T>G", "C>T", "A>T", "C>A", "C>G", "A>C", "A>G"]
+        nmp, fam = 4, "nucleotide"
+        style = "near_equal"
     elif which == "nonrev_dinuc":
         dirs = [(a, b) for a in NUC for b in NUC if a != b]
         chosen = rng.sample(dirs, rng.randint(1, 3))
         preds = [[a, b, True] for a, b in chosen]
-        spec = dict(cls="NonReversibleDinucleotide", preds=preds, mprob_model="tuple")
+        mpm = mpm or rng.choice(["tuple", "tuple", "monomer", "monomers", "conditional"])
+        spec = dict(cls="NonReversibleDinucleotide", preds=preds, mprob_model=mpm)
         names = [f"{a}>{b}" for a, b, _ in preds]
-        nmp, fam = 16, "dinucleotide"
+        nmp, fam = (4 if mpm in ("monomer", "monomers") else 16), "dinucleotide"
     else:
-        mpm = mpm or rng.choice(["tuple", "monomer", "conditional"])
+        mpm = mpm or rng.choice(["tuple", "monomer", "monomers", "conditional"])
         spec = dict(cls="TimeReversibleCodon", preds=["kappa", "omega"], mprob_model=mpm)
         names = ["kappa", "omega"]
-        nmp, fam = (4 if mpm == "monomer" else 61), "codon"
+        nmp, fam = (4 if mpm in ("monomer", "monomers") else 61), "codon"
     params = {p: rand_param(rng, style) for p in names}
-    return dict(kind="lf", spec=spec, params=params, mprobs=rand_probs(rng, nmp, style), t1=rand_length(rng, "plain"),
-                t2=rand_length(rng, "plain"), bins=None, light=False, style=style, family=fam, built=which)
+    if spec.get("mprob_model") == "monomers":   # one monomer distribution per position
+        mlen = 3 if fam == "codon" else 2
+        mprobs = [rand_probs(rng, 4, style) for _ in range(mlen)]
+    elif which == "general_stationary":
+        mprobs = [x / 64 for x in rng.choice([[16, 16, 16, 16], [17, 15, 16, 16], [14, 18, 17, 15]])]
+    else:
+        mprobs = rand_probs(rng, nmp, style)
+    return dict(kind="lf", spec=spec, params=params, mprobs=mprobs, t1=rand_length(rng, "plain"),
+                t2=rand_length(rng, "plain"), bins=bins, light=False, style=style, family=fam, built=which)
 
 
 def small_rate_matrix(rng, n):
@@ -250,8 +276,26 @@ def build_cases(rng, tier):
     for name in GENERAL_NUC:
         for _ in range(2 if tier == "quick" else 40):
             cases.append(named_case(rng, name, "near_degenerate"))
-    for mpm in ("tuple", "monomer", "conditional"):
+    for mpm in ("tuple", "monomer", "monomers", "conditional"):
         cases.append(built_case(rng, "plain", which="rev_dinuc", mpm=mpm))
+        cases.append(built_case(rng, "plain", which="subset_dinuc", mpm=mpm))
+    cases.append(built_case(rng, "plain", which="rev_codon", mpm="monomers"))
+    # non-stationary process whose word probabilities still come from a monomer model; rate classes on word models
+    cases.append(built_case(rng, "plain", which="nonrev_dinuc", mpm="monomers"))
+    cases.append(built_case(rng, "plain", which="nonrev_dinuc", mpm="monomer"))
+    cases.append(built_case(rng, "plain", which="rev_dinuc", mpm="monomers", bins=dict(n=3, dist="gamma", shape=0.5)))
+    cases.append(built_case(rng, "plain", which="subset_dinuc", mpm="monomer",
+                            bins=dict(n=2, dist="free", shape=1.0, partition=[0.25, 0.75], bprobs=[0.625, 0.375])))
+    cases.append(built_case(rng, "plain", which="subset_nuc"))
+    cases.append(built_case(rng, "plain", which="general_stationary"))
+    if tier != "quick":
+        for _ in range(12):
+            cases.append(built_case(rng, rng.choice(["plain", "extreme", "tiny_pi"]), which="subset_dinuc"))
+            cases.append(built_case(rng, "plain", which="subset_nuc"))
+            cases.append(built_case(rng, "plain", which="general_stationary"))
+        for mpm in ("tuple", "monomer", "monomers", "conditional"):
+            for _ in range(2):
+                cases.append(built_case(rng, rng.choice(["plain", "extreme"]), which="rev_codon", mpm=mpm))
     cases.append(built_case(rng, "plain", which="nonrev_dinuc"))
     cases.append(built_case(rng, "plain", which="rev_nuc"))
     cases.append(built_case(rng, "plain", which="nonrev_nuc"))
@@ -296,13 +340,17 @@ def coq_lf_case(c, r):
     st = r["structure"]
     if st["pred_masks"] is None or not (st["stationary_calcQ"] or st["general_calcQ"]):
         return None
-    mp = {"SimpleMotifProbModel": 0, "MonomerProbModel": 1, "ConditionalMotifProbModel": 2}.get(st["mprob_class"])
+    mp = {"SimpleMotifProbModel": 0, "MonomerProbModel": 1, "ConditionalMotifProbModel": 2,
+          "PosnSpecificMonomerProbModel": 3}.get(st["mprob_class"])
+    if c["spec"].get("cls") == "GeneralStationary":
+        return None  # its exchangeability matrix solves for the last entry of each column: not modelled
     if mp is None:
         return None
     mono = st["monomers"]
     words = "[" + ";".join("[" + ";".join(nat(mono.index(ch)) for ch in w) + "]" for w in st["words"]) + "]"
     preds = "[" + ";".join(f"({coq_mask(m)},{rat(r['params'][p])})" for m, p in zip(st["pred_masks"], st["param_order"])) + "]"
-    probs = "[" + ";".join(rat(x) for x in r["mprobs"]) + "]"
+    flat = [x for row in r["mprobs"] for x in row] if mp == 3 else r["mprobs"]
+    probs = "[" + ";".join(rat(x) for x in flat) + "]"
     n = len(st["words"])
     Q = numpy.array(r["Q"])
     norm = float(numpy.abs(Q).sum(axis=1).max()) * c["t1"]
@@ -433,6 +481,9 @@ def oracle_Q(c, r):
         stationary = spec["cls"].startswith("TimeReversible")
         is_codon = spec["cls"].endswith("Codon")
     mono = dict(zip(r["mprobs_keys"], r["mprobs"])) if kind == "monomer" else None
+    per = [dict(zip(r["mprobs_keys"], row)) for row in r["mprobs"]] if kind == "monomers" else None
+    if not name and spec["cls"] == "GeneralStationary":
+        return None
     has_omega = ("omega" in params)
     q = numpy.zeros((n, n))
     for i, wi in enumerate(words):
@@ -451,6 +502,8 @@ def oracle_Q(c, r):
                     f *= pi[j]
                 elif kind == "monomer":
                     f *= mono[y]
+                elif kind == "monomers":
+                    f *= per[d][y]
                 else:  # conditional nucleotide frequency: pi_j / sum of pi over words sharing the context
                     ctx = sum(pi[k] for k, wk in enumerate(words) if wk[:d] == wj[:d] and wk[d + 1:] == wj[d + 1:])
                     f *= pi[j] / ctx if ctx > 0 else 0.0
@@ -465,6 +518,10 @@ def oracle_pi(c, r):
     st = r["structure"]
     name = c["spec"].get("name")
     kind = MPROB_OF.get(name, "tuple") if name else (c["spec"].get("mprob_model") or "tuple")
+    if kind == "monomers":   # product of per-position monomer probabilities, normalised over the allowed words
+        per = [dict(zip(r["mprobs_keys"], row)) for row in r["mprobs"]]
+        raw = numpy.array([math.prod(per[k][ch] for k, ch in enumerate(w)) for w in st["words"]])
+        return raw / raw.sum()
     if kind != "monomer":
         return numpy.array(r["mprobs"])
     mono = dict(zip(r["mprobs_keys"], r["mprobs"]))
@@ -547,8 +604,12 @@ def spec_checks(ck: Checker, c, r):
     n = len(Q)
     pi = numpy.array(r["pi"])
     I = numpy.eye(n)
-    mpk = {"SimpleMotifProbModel": "tuple", "MonomerProbModel": "monomer", "ConditionalMotifProbModel": "conditional"}.get(st["mprob_class"], "?")
+    mpk = {"SimpleMotifProbModel": "tuple", "MonomerProbModel": "monomer", "ConditionalMotifProbModel": "conditional",
+           "PosnSpecificMonomerProbModel": "monomers"}.get(st["mprob_class"], "?")
     tag = f"{fam}:{mpk}"
+    # the model's word probabilities are a probability distribution over its states
+    ck.near(float(pi.sum()), 1.0, TOL, f"pi:sum-one:{tag}", c, "word probabilities do not sum to one")
+    ck.check(bool((pi >= 0).all()), f"pi:nonneg:{tag}", c, "negative word probability", dict(observed_impl=pi.tolist()))
     # word probabilities
     ck.near(pi, oracle_pi(c, r), TOL, f"pi:wordprobs:{tag}", c, "word probabilities differ from the published definition")
     # Q: zero rows, sign pattern, calibration
@@ -557,6 +618,10 @@ def spec_checks(ck: Checker, c, r):
     ck.check(bool((off >= 0).all()), f"Q:offdiag-sign:{tag}", c, "negative off-diagonal rate", dict(observed_impl=Q.tolist()))
     ck.near(-(pi * numpy.diag(Q)).sum(), 1.0, TOL, f"Q:calibration:{tag}", c,
             "expected rate at the motif probabilities is not one")
+    # a branch of length t carries t expected substitutions: -sum_i pi_i (Q t)_ii = t with pi normalised by the ORACLE
+    pin = oracle_pi(c, r)
+    ck.near(-(pin * numpy.diag(Q)).sum() * r["lengths"]["a"], r["lengths"]["a"], TOL, f"Q:expected-substitutions:{tag}", c,
+            "expected number of substitutions on a branch differs from its length (at the published stationary distribution)")
     Qo = oracle_Q(c, r)
     if Qo is not None:
         ck.near(Q, Qo, TOL, f"Q:published:{name if c['spec'].get('name') else tag}", c,
@@ -572,7 +637,7 @@ def spec_checks(ck: Checker, c, r):
                 "get_rate_matrix_for_edge(calibrated=False) is neither Q x length nor Q x length x rate")
     reversible = bool(c["spec"].get("name") in REVERSIBLE_NUC + [m for m in CODON if m != "GNC"] + PROTEIN
                       or (c["spec"].get("cls", "").startswith("TimeReversible")))
-    stationary = reversible
+    stationary = reversible or c["spec"].get("cls") == "GeneralStationary"
     if stationary:
         ck.near(pi @ Q, numpy.zeros(n), TOL, f"Q:stationarity:{tag}", c, "pi Q != 0 for a stationary model")
     if reversible:
@@ -736,6 +801,33 @@ def model_compare(ck: Checker, c, r, mv, terms, disagreements, p_reliable=True):
             dis("model:rates:" + c["which"], "model rate classes differ from the Defn.calc result", v, r["rates"], m)
 
 
+def coverage_cell(c, r):
+    st = r["structure"]
+    mpk = {"SimpleMotifProbModel": "tuple", "MonomerProbModel": "monomer", "ConditionalMotifProbModel": "conditional",
+           "PosnSpecificMonomerProbModel": "monomers"}.get(st["mprob_class"], "?")
+    full = {1: 4, 2: 16, 3: 64}.get(st["mlen"], 0)
+    n = len(st["words"])
+    subset = "full" if n == full or c["family"] == "protein" else ("sense-codons" if (c["family"] == "codon" and n == 61) else "subset")
+    proc = "reversible" if st["is_time_reversible"] else ("stationary-nonreversible" if st["is_stationary"] else "general")
+    rc = (c.get("bins") or {}).get("dist") or "none"
+    return f"{c['family']}|{mpk}|{subset}|{proc}|rates:{rc}"
+
+
+def coverage_grid():
+    """the cells a cogent3 user can build (alphabet kind x motif-prob model x state subset x process x rate classes)"""
+    cells = []
+    for fam, subsets, mpks in (("nucleotide", ("full", "subset"), ("tuple", "conditional")),
+                               ("dinucleotide", ("full", "subset"), ("tuple", "monomer", "monomers", "conditional")),
+                               ("codon", ("sense-codons",), ("tuple", "monomer", "monomers", "conditional")),
+                               ("protein", ("full",), ("tuple",))):
+        for sub in subsets:
+            for mpk in mpks:
+                for proc in ("reversible", "stationary-nonreversible", "general"):
+                    for rc in ("none", "gamma", "free"):
+                        cells.append(f"{fam}|{mpk}|{sub}|{proc}|rates:{rc}")
+    return cells
+
+
 def run_model(cases, impl):
     terms, coq_cases, idx = [], [], []
     for k, (c, r) in enumerate(zip(cases, impl)):
@@ -802,6 +894,8 @@ def run(tier: str, seed: int) -> int:
         rep.notes.append(f"model not runnable: {str(e)[:300]}")
     nontrivial = set()
     dist = {}
+    matrix = {}
+    skipped = 0
     for k, (c, r) in enumerate(zip(cases, impl)):
         dk = c["kind"] + ":" + (c.get("family") or c.get("which") or "")
         dist[dk] = dist.get(dk, 0) + 1
@@ -810,7 +904,12 @@ def run(tier: str, seed: int) -> int:
             rep.violation(key, dict(case=c, observed_impl=r, broken="a valid model/parameter setting made the implementation raise or hang"))
             continue
         p_reliable = True
+        if isinstance(r, dict) and "skipped" in r:
+            skipped += 1
+            continue
         if c["kind"] == "lf":
+            cell = coverage_cell(c, r)
+            matrix[cell] = matrix.get(cell, 0) + 1
             p_reliable = spec_checks(ck, c, r)
             if len(r["params"]) or c["mprobs"]:
                 nontrivial.add(json.dumps([c["spec"], c["params"], c["mprobs"], c["t1"], c["t2"]], sort_keys=True))
@@ -832,6 +931,13 @@ def run(tier: str, seed: int) -> int:
                                 styles={s: sum(1 for c in cases if c.get("style") == s) for s in
                                         ("plain", "short", "near_equal", "near_degenerate", "extreme", "tiny_pi", "long", "tiny")}),
         worst_scaled_diffs={k: v for k, v in sorted(ck.worst.items())},
+        coverage_matrix=dict(sorted(matrix.items())),
+        coverage_cells_never_generated=[x for x in coverage_grid() if x not in matrix],
+        not_covered=["model_gaps=True alphabets (gap state, _is_any_indel)", "motif_length=3 trinucleotide (64-state) models",
+                     "ns_substitution_model.General (param_pick form)", "DiscreteSubstitutionModel (BH/DT: no Q)",
+                     "edge- or bin-scoped substitution parameters (partitioned_params other than rate)",
+                     "multiple loci"],
+        skipped_parameter_out_of_bounds=skipped,
         model_impl_disagreements=len(disagreements),
         model_impl_disagreement_samples=[dict(key=d["key"], max_scaled_diff=d["max_scaled_diff"], spec=d["case"].get("spec"),
                                               style=d["case"].get("style"), case=d["case"]) for d in disagreements[:5]],
@@ -842,9 +948,15 @@ def run(tier: str, seed: int) -> int:
             "agreement of the exponentiator back-ends with each other and with exp(Qt): numerical correspondence only",
             "floating-point rounding, LAPACK, gdtri: not modelled",
             "predicate -> mask translation (evolve/predicate.py) is not modelled in Coq; masks are data, re-derived by the oracle",
+            "GeneralStationary.calc_exchangeability_matrix (last-in-column solve) is not modelled: oracle clauses only",
         ],
         exhaustive=False,
     )
+    print("coverage matrix (family|mprob model|states|process|rate classes: count):", flush=True)
+    for cell, cnt in sorted(matrix.items()):
+        print(f"  {cell}: {cnt}")
+    print(f"  cells of the buildable grid never generated: {len([x for x in coverage_grid() if x not in matrix])} of {len(coverage_grid())} "
+          "(listed in evidence coverage.coverage_cells_never_generated)", flush=True)
     for d in disagreements[:5]:
         print(f"model/implementation disagreement: {d['key']} max scaled diff {d['max_scaled_diff']:.3g} on {d['case'].get('spec') or d['case'].get('kind')}", flush=True)
     core.conclude(rep, pr, f"{len(cases)} configurations, {ck.nchecks} numeric checks against the published-definition oracle",
